@@ -165,6 +165,11 @@ func c04Constructed(r *Run) {
 	}
 	external := genExternal(t)
 	lo := LayerOpts{MaxExtra: 3, AlgItem: algItem}
+	if t.Bool(1, 6, "c04.manyparams") {
+		// a header as large as a certificate chain plus claims makes it:
+		// the algorithm governs whatever the size of the bucket it sits in
+		lo.MaxExtra = 40
+	}
 	targets := []string{"Sign1Message", "UntaggedSign1Message", "Signature", "SignMessage", "Countersignature", "Sign1()", "Sign1Untagged()", "SignHashEnvelope()"}
 	target := targets[t.Choose(len(targets), "c04.target")]
 	layer := genLayer(t, lo)
